@@ -83,6 +83,15 @@ def run_case(doc_text, ops, mode, collect=None):
             break
         if status == "raise":
             info["refused"] += 1
+            if mode == "same-object" and src is not None:
+                # whatever the reason for the refusal, the document object still says what it said before
+                try:
+                    still = src.rebuild()
+                except Exception as e:  # noqa: BLE001
+                    still = f"<rebuild raises {type(e).__name__}>"
+                if still.rstrip("\n") != cur.rstrip("\n"):
+                    fails.append((f"document-changed-by-refused-edit|{op}:{cls}|{shape}", {"doc": cur[:400], "after": still[:400], "op": [op, path, value]}))
+                    break
             if pred == "ok":
                 fails.append((f"refused-wellformed:{type(res).__name__}|{op}:{cls}|{shape}|{'+'.join(notes)}", {"exc": E.exc_sig(res), "msg": str(res)[:120], "doc": cur[:400], "op": [op, path, value]}))
                 break
